@@ -110,7 +110,15 @@ func (f *fctx) instr(ins ssa.Instruction) {
 		f.assume(T(SBool, "(not (= %s any.nil))", a.S))
 		f.setVal(ins, a)
 	case *ssa.ChangeInterface:
-		f.vals[ins] = f.val(ins.X)
+		x := f.val(ins.X)
+		if x.Sort.Kind == KBool && f.vc.sortOf(ins.Type()).Kind != KBool {
+			// an error (modelled by its non-nil-ness) boxed as interface{}: opaque value, nil iff the error is nil
+			a := f.declare(ins.Name(), SAny)
+			f.assume(T(SBool, "(= (= %s any.nil) (not %s))", a.S, x.S))
+			f.setVal(ins, a)
+			return
+		}
+		f.vals[ins] = x
 	case *ssa.MakeClosure:
 		f.clos[ins] = ins
 		f.vals[ins] = Term{S: "closure:" + ins.Name(), Sort: SFunc}
